@@ -282,6 +282,41 @@ class World:
         return (tuple(per), order, back)
 
 
+def finish_replay(pid, path, p):
+    """Common tail of --replay: report whether the recorded case still violates the property."""
+    if p.violations:
+        for group, example, what, _ in p.violations:
+            print("VIOLATION property=%s replay=%s" % (pid, path))
+            print("  what: %s" % what)
+            print("  key:  %s|%s" % (group, example))
+        return 1
+    print("%s replay: the recorded case does not violate the property on this tree" % pid)
+    return 0
+
+
+def report(p, subject, w, hist):
+    kind, what = w.viol
+    p.violation("%s|%s" % (subject, kind), " ".join(show(e) for e in hist),
+                "%s after history [%s]: %s" % (subject, ", ".join(show(e) for e in hist), what),
+                dict(subject=subject, history=[[e[0]] + [list(x) if isinstance(x, tuple) else x for x in e[1:]] for e in hist],
+                     what=what, double_log=w.fn.trace(30),
+                     how="serving.%s(ha=('',%d)) over mc.net doubles; connect = raw client bound to the peer "
+                         "address connects and sends one byte; peerclose = that client closes; the other "
+                         "events are the server methods of the same name" % (subject, PORT)))
+
+
+def replay(path):
+    import json
+    r = json.load(open(path))["replay"]
+    init()
+    p = core.Part()
+    hist = [tuple(tuple(x) if isinstance(x, list) else x for x in e) for e in r["history"]]
+    w = World(r["subject"], hist)
+    if w.viol:
+        report(p, r["subject"], w, hist[:len(w.history)])
+    return finish_replay("C26", path, p)
+
+
 def explore(arg):
     subject, depth = arg
     init()
@@ -305,13 +340,7 @@ def explore(arg):
         if w.viol:
             kind, what = w.viol
             p.outcome("violation %s" % kind.split("|")[0])
-            p.violation("%s|%s" % (subject, kind), " ".join(show(e) for e in hist),
-                        "%s after history [%s]: %s" % (subject, ", ".join(show(e) for e in hist), what),
-                        dict(subject=subject, history=[list(map(str, e)) for e in hist], what=what,
-                             double_log=w.fn.trace(30),
-                             how="serving.%s(ha=('',%d)) over mc.net doubles; connect = raw client bound to the peer "
-                                 "address connects and sends one byte; peerclose = that client closes; the other "
-                                 "events are the server methods of the same name" % (subject, PORT)))
+            report(p, subject, w, hist)
             return True
         p.outcome("%s ok, %d entries" % (hist[-1][0] if hist else "init",
                                          sum(len(t) for _, t in w.tables())))
@@ -335,6 +364,9 @@ def show(ev):
 
 
 def run():
+    import os
+    if os.environ.get("VERIF_REPLAY"):
+        return replay(os.environ["VERIF_REPLAY"])
     net.selftest()
     ck = core.Check("C26", META["level"], META["technique"])
     depth = DEPTH[core.TIER]
